@@ -9,8 +9,41 @@ Output line:
 -/
 open Mimium Mimium.Lexer Mimium.Preparse Mimium.LexerIO
 
+/-- `K` lines: arbitrary kind sequences fed to the real `preparse`/`parse_cst`; only the preparse model and the judge apply -/
+def c13Kinds (itoks iidx ilead itrail ileaves : String) : String :=
+  match parseTokens itoks with
+  | none => "bad-input\tbad-input\t0\t0\t0\ttokens"
+  | some ts =>
+    let ks := ts.map Token.kind
+    let r := preparse ks
+    let mI := showNats r.tokenIndices
+    let mL := showMap r.leading
+    let mR := showMap r.trailing
+    let agree :=
+      if mI != iidx then s!"DIFF:token_indices\t{mI}"
+      else if mL != ilead then s!"DIFF:leading\t{mL}"
+      else if mR != itrail then s!"DIFF:trailing\t{mR}"
+      else if mI != ileaves then s!"DIFF:leaves\t{mI}"
+      else "ok\t"
+    let (judge, nTriv, nDrop) :=
+      match parseNats iidx, parseMap ilead, parseMap itrail, parseNats ileaves with
+      | some idx, some ld, some tr, some lv =>
+        let rep := triviaJudge ks ⟨idx, ld, tr⟩
+        let j :=
+          if idx != LexerIO.syntaxIndices ks then "bad:token_indices"
+          else if lv != idx then "bad:cst-leaves"
+          else if rep.bad != 0 then s!"bad:trivia@{rep.firstBad.getD 0}"
+          else if rep.droppedClass != 0 then (if idx.isEmpty then "F7b" else "F7a")
+          else "ok"
+        (j, rep.trivia, rep.droppedClass)
+      | _, _, _, _ => ("bad:unparsable(" ++ ileaves.take 40 ++ ")", 0, 0)
+    match agree.splitOn "\t" with
+    | [a, d] => s!"{a}\t{judge}\t{ts.length}\t{nTriv}\t{nDrop}\t{d}"
+    | _ => s!"{agree}\t{judge}\t{ts.length}\t{nTriv}\t{nDrop}\t"
+
 def c13Line (line : String) : String :=
   match line.splitOn "\t" with
+  | "K" :: _ :: itoks :: iidx :: ilead :: itrail :: ileaves :: _ => c13Kinds itoks iidx ilead itrail ileaves
   | hex :: cls :: itoks :: iidx :: ilead :: itrail :: ileaves :: _flags =>
     match decodeHex hex with
     | none => "bad-input\tbad-input\t0\t0\t0\thex"
